@@ -836,7 +836,8 @@ func (fc *FnCtx) fieldAddrTerm(ss string, i int, base string) string {
 	if !fc.P.done["decl:"+name] {
 		fc.P.Declare("fakind", "(declare-fun fakind (Int) Int)")
 		fc.faCount++
-		fc.P.Declare(name, fmt.Sprintf("(declare-fun %s (Int) Int)\n(declare-fun inv_%s (Int) Int)\n(assert (forall ((r Int)) (! (and (= (inv_%s (%s r)) r) (= (fakind (%s r)) %d) (> (%s r) 0)) :pattern ((%s r)))))", name, name, name, name, name, int(hashString(name)%1000000)+1, name, name))
+		fc.P.Declare("faowner", "(declare-fun faowner (Int) Int)")
+		fc.P.Declare(name, fmt.Sprintf("(declare-fun %s (Int) Int)\n(declare-fun inv_%s (Int) Int)\n(assert (forall ((r Int)) (! (and (= (inv_%s (%s r)) r) (= (faowner (%s r)) r) (= (fakind (%s r)) %d) (> (%s r) 0)) :pattern ((%s r)))))", name, name, name, name, name, name, int(hashString(name)%1000000)+1, name, name))
 	}
 	return fmt.Sprintf("(%s %s)", name, base)
 }
